@@ -35,6 +35,37 @@ Qed.
 Lemma deriv_dir d s a : exists x, deriv d (dir_atom s a) = Some x.
 Proof. destruct a; simpl; eauto. destruct (dlookup s f); simpl; eauto. Qed.
 
+Lemma deriv_subst_def eps s d1 d2 t : forall h, deriv d1 t = Some h ->
+  exists t', deriv d2 (subst_eps eps s t) = Some t'.
+Proof.
+  induction t; cbn [deriv subst_eps]; intros h H; eauto.
+  - destruct (varied s a); cbn [deriv eps_atom]; eauto.
+    destruct (deriv_dir d2 s a) as [x ->]. simpl. eauto.
+  - destruct (deriv d1 t1), (deriv d1 t2); try discriminate.
+    destruct (IHt1 _ eq_refl) as [x1 ->], (IHt2 _ eq_refl) as [x2 ->]. simpl. eauto.
+  - destruct (deriv d1 t1), (deriv d1 t2); try discriminate.
+    destruct (IHt1 _ eq_refl) as [x1 ->], (IHt2 _ eq_refl) as [x2 ->]. simpl. eauto.
+  - destruct (deriv d1 t1), (deriv d1 t2); try discriminate.
+    destruct (IHt1 _ eq_refl) as [x1 ->], (IHt2 _ eq_refl) as [x2 ->]. simpl. eauto.
+  - destruct (deriv d1 t1), (deriv d1 t2); try discriminate.
+    destruct (IHt1 _ eq_refl) as [x1 ->], (IHt2 _ eq_refl) as [x2 ->]. simpl. eauto.
+  - destruct (deriv d1 t); try discriminate. destruct (IHt _ eq_refl) as [x ->]. simpl. eauto.
+  - destruct (deriv d1 t); try discriminate. destruct (IHt _ eq_refl) as [x ->]. simpl. eauto.
+  - destruct n; eauto. destruct (deriv d1 t); try discriminate. destruct (IHt _ eq_refl) as [x ->]. simpl. eauto.
+  - destruct (deriv d1 t); try discriminate. destruct (IHt _ eq_refl) as [x ->].
+    destruct f; try discriminate; eauto.
+  - destruct (deriv d1 t1), (deriv d1 t2); try discriminate.
+    destruct (IHt1 _ eq_refl) as [x1 ->], (IHt2 _ eq_refl) as [x2 ->]. simpl. eauto.
+Qed.
+
+(* the derivative arm is defined wherever the directional derivative is *)
+Lemma lin_series_total eps s e h : fwd s e = Some h -> exists r, lin_series eps s e = Some r.
+Proof.
+  unfold fwd, lin_series, pdiff. intros H.
+  destruct (deriv_subst_def eps s _ (fun b => if atom_eqb (AConst eps) b then One else Zero) e h H) as [t' ->].
+  simpl. eauto.
+Qed.
+
 Lemma dlookup_dir_not_const s a eps : has_const eps (dir_atom s a) = false.
 Proof. destruct a; simpl; auto. destruct (dlookup s f); reflexivity. Qed.
 
@@ -755,28 +786,33 @@ Section Final.
     apply teval_dual with (datom := dir_atom s); auto.
   Qed.
 
-  Theorem lin_integrand_sound eps s rho e r h : has_const eps e = false -> vd rho e ->
+  Theorem lin_integrand_sound eps s rho e r h : has_const eps e = false ->
     lin_integrand eps s e = Some r -> fwd s e = Some h -> vv rho r = vv rho h.
   Proof.
-    intros Hc Hd Hl Hf. unfold lin_integrand in Hl.
-    destruct (lin_poly eps s e) as [r'|] eqn:Ep.
-    - inversion Hl. subst r'.
-      apply (lin_poly_sound F f0 f1 fadd fmul fsub fopp fdiv finv Fth E P E1tab (fun _ => eq_refl) (fun _ => eq_refl)
-               (fun _ => eq_refl) (fun _ => eq_refl) (fun _ => eq_refl) (fun _ => eq_refl) char0 rho eps s e r h); auto.
-    - destruct (lin_series_sound F f0 f1 fadd fmul fsub fopp fdiv finv Fth E P eps s rho e r Hc Hl) as [h' [Hh' V]].
-      congruence.
+    intros Hc Hl Hf. unfold lin_integrand in Hl.
+    destruct (lin_series_sound F f0 f1 fadd fmul fsub fopp fdiv finv Fth E P eps s rho e r Hc Hl) as [h' [Hh' V]].
+    congruence.
   Qed.
 
-  Theorem lin_integrand_gateaux eps s rho e r g h : has_const eps e = false -> vd rho e ->
+  (* the expansion / eps^1-coefficient arm (the polynomial fragment of the former series-based code) agrees *)
+  Theorem lin_poly_agrees eps s rho e r r' h : has_const eps e = false -> vd rho e ->
+    lin_poly eps s e = Some r -> lin_integrand eps s e = Some r' -> fwd s e = Some h -> vv rho r = vv rho r'.
+  Proof.
+    intros Hc Hd Hp Hl Hf. rewrite (lin_integrand_sound eps s rho e r' h Hc Hl Hf).
+    apply (lin_poly_sound F f0 f1 fadd fmul fsub fopp fdiv finv Fth E P E1tab (fun _ => eq_refl) (fun _ => eq_refl)
+             (fun _ => eq_refl) (fun _ => eq_refl) (fun _ => eq_refl) (fun _ => eq_refl) char0 rho eps s e r h); auto.
+  Qed.
+
+  Theorem lin_integrand_gateaux eps s rho e r g h : has_const eps e = false ->
     lin_integrand eps s e = Some r -> gateaux s e = Some g -> fwd s e = Some h -> vv rho r = vv rho g.
   Proof.
-    intros Hc Hd Hl Hg Hf. rewrite (lin_integrand_sound eps s rho e r h); auto.
+    intros Hc Hl Hg Hf. rewrite (lin_integrand_sound eps s rho e r h); auto.
     symmetry. eapply gateaux_value; eauto.
   Qed.
 
   (* the auxiliary name does not matter *)
   Theorem lin_name_independent eps1 eps2 s rho e r1 r2 h :
-    has_const eps1 e = false -> has_const eps2 e = false -> vd rho e -> fwd s e = Some h ->
+    has_const eps1 e = false -> has_const eps2 e = false -> fwd s e = Some h ->
     lin_integrand eps1 s e = Some r1 -> lin_integrand eps2 s e = Some r2 -> vv rho r1 = vv rho r2.
   Proof.
     intros. rewrite (lin_integrand_sound eps1 s rho e r1 h), (lin_integrand_sound eps2 s rho e r2 h); auto.
@@ -813,17 +849,17 @@ Section Final.
                              lin_rel s rho ((r, e) :: f) parts.
 
   Definition form_ok (eps : string) (s : dirmap) (rho : atom -> F) (f : form) : Prop :=
-    Forall (fun re => has_const eps (snd re) = false /\ vd rho (snd re) /\ exists h, fwd s (snd re) = Some h) f.
+    Forall (fun re => has_const eps (snd re) = false /\ exists h, fwd s (snd re) = Some h) f.
 
   Theorem lin_parts_sound eps s rho f : forall parts, form_ok eps s rho f ->
     lin_parts eps s f = Some parts -> lin_rel s rho f parts.
   Proof.
     induction f as [|[r e] f IH]; intros parts Hok H; simpl in H.
     - inversion H. constructor.
-    - inversion Hok as [|? ? (Hc & Hd & [h Hh]) Hok']; subst. simpl in *.
+    - inversion Hok as [|? ? (Hc & [h Hh]) Hok']; subst. simpl in *.
       destruct (lin_integrand eps s e) as [d|] eqn:El; [|discriminate].
       destruct (lin_parts eps s f) as [rest|] eqn:Er; [|discriminate].
-      pose proof (lin_integrand_sound eps s rho e d h Hc Hd El Hh) as V.
+      pose proof (lin_integrand_sound eps s rho e d h Hc El Hh) as V.
       destruct (is_zero_expr d) eqn:Ez; inversion H; subst.
       + apply (lin_skip s rho r e h); auto. rewrite <- V. now apply is_zero_expr_sound.
       + apply (lin_keep s rho r e d h); auto.
@@ -833,43 +869,62 @@ Section Final.
     model_linearize eps s f = LOk parts -> lin_rel s rho f parts.
   Proof.
     unfold model_linearize. intros Hok H.
-    destruct (lin_parts eps s f) as [[|x r]|] eqn:E'; try discriminate. inversion H. subst.
+    destruct (lin_parts eps s f) as [p|] eqn:E'; try discriminate. inversion H. subst.
     now apply lin_parts_sound with (eps := eps).
   Qed.
 
-  (* linearize fails exactly when every integral is dropped: the derivative is then the zero form *)
-  Theorem model_linearize_empty eps s rho f : form_ok eps s rho f ->
-    model_linearize eps s f = LEmptyReduce -> lin_rel s rho f [].
+  Lemma lin_parts_total eps s rho f : form_ok eps s rho f -> exists parts, lin_parts eps s f = Some parts.
   Proof.
-    unfold model_linearize. intros Hok H.
-    destruct (lin_parts eps s f) as [[|x r]|] eqn:E'; try discriminate.
-    now apply lin_parts_sound with (eps := eps).
+    induction f as [|[r e] f IH]; intros Hok; simpl; eauto.
+    inversion Hok as [|? ? (Hc & [h Hh]) Hok']; subst. simpl in *.
+    destruct (IH Hok') as [rest ->]. unfold lin_integrand.
+    destruct (lin_series_total eps s e h Hh) as [d ->]. eauto.
   Qed.
 
-  Theorem model_linearize_partial eps s f parts :
-    lin_parts eps s f = Some parts -> parts <> [] -> model_linearize eps s f = LOk parts.
-  Proof. unfold model_linearize. intros ->. destruct parts; congruence. Qed.
+  (* linearize always returns a form: integral by integral the directional derivative, the zero form ([]) exactly
+     when every integral is dropped, i.e. every derivative vanishes *)
+  Theorem model_linearize_total eps s rho f : form_ok eps s rho f ->
+    exists parts, model_linearize eps s f = LOk parts /\ lin_rel s rho f parts.
+  Proof.
+    intros Hok. destruct (lin_parts_total eps s rho f Hok) as [parts Hp].
+    exists parts. split.
+    - unfold model_linearize. now rewrite Hp.
+    - now apply lin_parts_sound with (eps := eps).
+  Qed.
 
   (* Newton: (linearised form, negated form) *)
-  Theorem model_newton_spec eps s rho f :
-    fst (model_newton eps s f) = model_linearize eps s f /\
-    map fst (snd (model_newton eps s f)) = map fst f /\
-    map (fun re => vv rho (snd re)) (snd (model_newton eps s f)) = map (fun re => fopp (vv rho (snd re))) f.
+  Theorem model_newton_spec eps s rho f lhs rhs : model_newton eps s f = NOk lhs rhs ->
+    model_linearize eps s f = LOk lhs /\ lhs <> [] /\
+    map fst rhs = map fst f /\
+    map (fun re => vv rho (snd re)) rhs = map (fun re => fopp (vv rho (snd re))) f.
   Proof.
-    unfold model_newton. simpl. repeat split.
-    - rewrite map_map. reflexivity.
-    - rewrite map_map. reflexivity.
+    unfold model_newton. destruct (model_linearize eps s f) as [[|x p]| |]; try discriminate.
+    intros H. inversion H. subst. repeat split; try discriminate; rewrite map_map; reflexivity.
   Qed.
+
+  (* ... as soon as one integral survives *)
+  Theorem model_newton_partial eps s f x parts : model_linearize eps s f = LOk (x :: parts) ->
+    model_newton eps s f = NOk (x :: parts) (map (fun re => (fst re, TOpp (snd re))) f).
+  Proof. unfold model_newton. now intros ->. Qed.
 End Final.
 
-(* the reported defect: a form that does not depend on u has no linearisation (reduce(add, []) raises)
+(* history: before 910ffef a form that does not depend on u had no linearisation (reduce(add, []) raised)
    although its Gateaux derivative is the zero form *)
-Theorem model_linearize_total_refuted :
+Theorem model_linearize_before_910ffef_refuted :
   exists (s : dirmap) (f : form) g,
-    model_linearize "eps" s f = LEmptyReduce /\ gateaux_form s f = Some g.
+    model_linearize_before_910ffef "eps" s f = LEmptyReduce /\ gateaux_form s f = Some g /\
+    model_linearize "eps" s f = LOk [].
 Proof.
   exists [("u", "du")%string], [(0, TMul (TAt (AFld true "f" 0 SNone [])) (TAt (AFld true "v" 0 SNone [])))].
-  eexists. split; vm_compute; reflexivity.
+  eexists. repeat split; vm_compute; reflexivity.
+Qed.
+
+(* still open: NewtonIteration of such a form reads `.variables` of the zero form *)
+Theorem model_newton_total_refuted :
+  exists (s : dirmap) (f : form), model_newton "eps" s f = NZeroFormNoEquation.
+Proof.
+  exists [("u", "du")%string], [(0, TMul (TAt (AFld true "f" 0 SNone [])) (TAt (AFld true "v" 0 SNone [])))].
+  vm_compute. reflexivity.
 Qed.
 
 (* ================================================================= 6. in every differential field *)
@@ -901,10 +956,10 @@ Section DFieldGateaux.
     unfold dvS, dvev. apply vev_ext. intros a. now rewrite (ev_vev0 S).
   Qed.
 
-  Theorem linearize_dfield eps s e r g h : char0 S -> has_const eps e = false -> vdefS e ->
+  Theorem linearize_dfield eps s e r g h : has_const eps e = false ->
     lin_integrand eps s e = Some r -> gateaux s e = Some g -> fwd s e = Some h -> ev S r = ev S g.
   Proof.
-    intros H0 Hc Hd Hl Hg Hf. rewrite !(ev_vev0 S).
-    apply (lin_integrand_gateaux (F S) _ _ _ _ _ _ _ _ (Fth S) H0 (E S) (P S) eps s rhoS e r g h); auto.
+    intros Hc Hl Hg Hf. rewrite !(ev_vev0 S).
+    apply (lin_integrand_gateaux (F S) _ _ _ _ _ _ _ _ (Fth S) (E S) (P S) eps s rhoS e r g h); auto.
   Qed.
 End DFieldGateaux.
